@@ -290,7 +290,7 @@ func strConstEq(f Fact) (string, string, bool) {
 func (m *idlModel) funcs() []*ssa.Function {
 	out := append([]*ssa.Function(nil), m.a.methods...)
 	for _, f := range m.p.FuncsOf(pkgIDL) {
-		if m.a.isCursorMethod(f) || f == m.a.next || f == m.a.back {
+		if m.a.isCursorMethod(f) || f == m.a.next || f == m.a.back || m.a.inlinedHelpers[f] {
 			continue
 		}
 		out = append(out, f)
